@@ -315,7 +315,7 @@ def line_text(l, sp):
         body = ".include" + g + '"%s"' % l["p"]
     elif k == "includepath":
         body = ".includepath" + g + '"%s"' % l["p"]
-    elif k == "garbage":
+    elif k in ("garbage", "noop"):
         body = l["text"]
     else:
         raise ValueError("cannot render " + k)
